@@ -182,3 +182,77 @@ for _tag, _rows, _src in (("own_row", ("adults", "all"), "adults"), ("all_row", 
                   ("'adults' in ts and ts['adults'] is not ROWS[%r] and ts['adults'].assumption == ROWS[%r].assumption and len(ts) == 1" % (_src, _src)) if _src else "len(ts) == 0")],
         defined_props=["C06", "C16"])
 import z3  # noqa: E402
+
+
+# ---- ParameterSet.__init__, quantities that are not in the databook but have a default value (C16: "same content ... unit"): the series built for them
+# carry the default value and the units OF THAT QUANTITY, one per population of the quantity's population type
+def _env_default_value(it):
+    from pyvc.interp import PyObjV
+    from pyvc.core import Opaque
+    from pyvc import source
+
+    pm = source.load("parameters")
+    self = PyObjV("ParameterSet", pm, {"name": "ps", "pop_names": ["adults", "mosquitoes"], "pars": {"last_databook_quantity": Opaque("a parameter read from the databook")}})
+    data = PyObjV("ProjectData", source.load("data"), {"pops": {"adults": {"label": "Adults", "type": "hum"}, "mosquitoes": {"label": "Mosquitoes", "type": "mos"}}})
+    # `name` is the variable of the PREVIOUS loop of the constructor (the last quantity read from the databook)
+    return {"self": self, "data": data, "framework": PyObjV("ProjectFramework", source.load("framework"), {"name": "fw"}), "spec": Opaque("framework row"), "name": "last_databook_quantity", "_": 0, "ASKED": [], "BUILT": []}
+
+
+def _ghost_units(it, code_name):
+    it.live_env["ASKED"].append(code_name)
+    return "Units Of " + code_name + " "
+
+
+def _ghost_ts(it, units=None, assumption=None, **k):
+    it.live_env["BUILT"].append((units, assumption))
+    return ("series", units, assumption)
+
+
+def _ghost_parameter(it, name, ts):
+    return ("parameter", name, dict(ts))
+
+
+def _replay_default_value(model, contract):
+    """replay on the tb_simple framework with one characteristic taken out of the databook and given the default value 0: the series the parameter
+    set builds for it must carry the compartment's own databook units"""
+    import logging
+    import warnings
+
+    import atomica as at
+
+    warnings.filterwarnings("ignore")
+    at.logger.setLevel(logging.ERROR)
+    P = at.demo("tb_simple", do_run=False)
+    F, D = P.framework, P.data
+    comp = [c for c in F.characs.index if c in D.tdve][-1]     # (a characteristic: the udt databook holds no compartment table)
+    F.characs.at[comp, "databook page"] = None
+    F.characs.at[comp, "default value"] = 0.0
+    F.characs.at[comp, "setup weight"] = 0.0
+    del D.tdve[comp]
+    for page in D.tdve_pages.values():
+        if comp in page:
+            page.remove(comp)
+    want = F.get_databook_units(comp).strip().lower()
+    other = [k for k in D.tdve.keys() if F.get_databook_units(k).strip().lower() != want]
+    if other:                                           # a table with other units is read last from the databook
+        tdve = D.tdve.pop(other[0])
+        D.tdve[other[0]] = tdve
+    pre = dict(framework="tb_simple", quantity=comp, default_value=0.0, its_units=want, last_databook_quantity=list(D.tdve.keys())[-1])
+    try:
+        ps = at.ParameterSet(F, D, "x")
+    except Exception as e:  # noqa
+        return dict(verdict="violates", raised=type(e).__name__, detail="building the parameter set raised %s: %s" % (type(e).__name__, e), prestate=pre)
+    got = {pop: ts.units for pop, ts in ps.pars[comp].ts.items()}
+    bad = {pop: u for pop, u in got.items() if u != want}
+    return dict(verdict="violates" if bad else "holds", detail=("the default-valued quantity %r gets units %r, its own units are %r" % (comp, sorted(set(bad.values())), want)) if bad else "the series carry the quantity's own units", prestate=pre)
+
+
+CONTRACTS["parameters:ParameterSet.__init__#default_valued_quantity"] = dict(
+    schema=schema, fragment={"iter": "itertools.chain(framework.comps.iterrows(), framework.characs.iterrows())"}, make_env=_env_default_value, replay_hook=_replay_default_value,
+    ghost_params={"DEFAULT": "real"},
+    stubs={"pd.isna(spec['databook page'])": "TRUE", "pd.isna(spec['default value'])": "FALSE", "spec.name": "CODE", "spec['default value']": "DEFAULT", "spec['population type']": "TYPE"},
+    call_stubs={"framework.get_databook_units": _ghost_units, "TimeSeries": _ghost_ts, "Parameter": _ghost_parameter},
+    ensures=[("C16.the_series_carry_the_units_of_that_quantity", "ASKED == ['q'] and all(b[0] == 'units of q' for b in BUILT)"),
+             ("C16+C06.one_series_with_the_default_value_per_population_of_the_quantitys_type", "self.pars['q'] == ('parameter', 'q', {'adults': ('series', BUILT[0][0], DEFAULT)}) and len(BUILT) == 1")],
+    defined_props=["C16", "C06"])
+CONTRACTS["parameters:ParameterSet.__init__#default_valued_quantity"]["ghost_params"].update({"TRUE": "const:True", "FALSE": "const:False", "CODE": "const:'q'", "TYPE": "const:'hum'"})
